@@ -111,7 +111,7 @@ CHECKS['C09'] = dict(
                quick=dict(defines=['VERIF_RECORDS=1'], bounds='1 record with symbolic output (4), mtime (3), dependency list (4 menus); torn at every byte', limits=dict(time=1500)),
                thorough=dict(defines=['VERIF_RECORDS=2'], bounds='1..2 such records', limits=dict(time=3000, max_paths=3000000)))])
 
-SCENARIOS = ['chain', 'restat_then_deps', 'diamond_order_only', 'depfile_plain', 'deps_msvc', 'multi_out_phony', 'generator_validation', 'dyndep', 'generated_header_deps', 'pools', 'dyndep_static_consumer', 'dyndep_static_consumer_oo']
+SCENARIOS = ['chain', 'restat_then_deps', 'diamond_order_only', 'depfile_plain', 'deps_msvc', 'multi_out_phony', 'generator_validation', 'dyndep', 'generated_header_deps', 'pools', 'dyndep_static_consumer', 'dyndep_static_consumer_oo', 'restat_phony']
 _PIPE_ASSUME = ['commands are deterministic functions of the files they read at start (content ids), write only their declared outputs/depfile, and report every extra file they read through the depfile/deps/dyndep mechanism',
                 'modification times never go backwards: every write and every user edit gets a strictly later tick than anything before it',
                 'graph shapes: the scenario catalogue in harness/scenarios.h (shape is concrete manifest text parsed by the real ManifestParser); histories, schedules, options and faults are symbolic within the stated bounds',
@@ -129,13 +129,13 @@ CHECKS['C01'] = dict(
     level_text='Bounded symbolic execution of the whole real pipeline (manifest parser, dependency scan, plan, builder, build log and deps log on an in-memory file system) over histories of invocations: before each invocation the solver-chosen user operations edit sources or discovered headers, delete an output or switch the manifest variant; target subset, -j and the completion order of running commands are symbolic. After every invocation that returns success the harness asserts that every requested target and everything it transitively depends on has the content a from-scratch evaluation of the current sources produces.',
     level_note='Trusted: IR generation, interpreter and VFS (cross-checked natively per run), z3, the harness kit (SymDisk, SymRunner, content model: 150 lines) and the 20-line from-scratch reference. Bounds: the 10 shapes of harness/scenarios.h, history length 2 (quick) / 3 (thorough), -j <= 2. Manifest regeneration through NinjaMain::RebuildManifest and histories containing interrupted builds are covered by C07, not here.',
     assumptions=_PIPE_ASSUME,
-    jobs=_hist_jobs('CHECK_C01', 2, 3, range(12)) + _hist_jobs('CHECK_C01', 2, 3, [1, 3], fail=True, reach=('built',)) + [dict(j, thorough_only=True) for j in _hist_jobs('CHECK_C01', 2, 2, [0, 5], fail=True, reach=('built',))])
+    jobs=_hist_jobs('CHECK_C01', 2, 3, list(range(13))) + _hist_jobs('CHECK_C01', 2, 3, [1, 3], fail=True, reach=('built',)) + [dict(j, thorough_only=True) for j in _hist_jobs('CHECK_C01', 2, 2, [0, 5], fail=True, reach=('built',))])
 CHECKS['C02'] = dict(
     title='a build that succeeded leaves nothing to do',
     level_text='Same symbolic histories as C01; after every invocation that returns success the identical request is issued twice more with nothing changed in between, and the harness asserts that neither starts a command and both report an up-to-date plan.',
     level_note='Trusted base and bounds as C01. Commands rewrite all their outputs except restat-style commands, which leave identical outputs untouched (the property\'s assumption). No scenario contains an input-less phony statement without a file (the documented always-dirty case).',
     assumptions=_PIPE_ASSUME + ['every non-restat command rewrites all of its declared outputs'],
-    jobs=_hist_jobs('CHECK_C02', 2, 3, range(10), reach=('built', 'converged-checked')))
+    jobs=_hist_jobs('CHECK_C02', 2, 3, list(range(10)) + [12], reach=('built', 'converged-checked')))
 
 def _mode_jobs(mode, scenarios, extra=(), suffix='', reach=(), quick_defs=(), thorough_defs=(), bounds='', limits=None, thorough_only=False):
     jobs = []
@@ -151,7 +151,7 @@ CHECKS['C03'] = dict(
     level_text='Same symbolic histories as C01; before every invocation the harness computes, from the contents each command saw when it last succeeded, the set of commands a make-semantics reference must run (missing output, changed command line except for generator rules, missing plain depfile, a read file that differs from what was last seen, or an input actually rewritten in this run; restat-style commands that reproduce their output rewrite nothing; order-only inputs never count), and asserts that the set handed to CommandRunner::StartCommand is exactly that set.',
     level_note='Trusted base as C01 plus the 45-line minimality reference (MinRef in harness/kit.h). Bounds as C01 (history length 2 quick / 3 thorough). Histories with failing commands are excluded from this check.',
     assumptions=_PIPE_ASSUME + ['every user edit changes the content of the edited file (a pure touch is not modelled)'],
-    jobs=_hist_jobs('CHECK_C03', 2, 3, [0, 2, 3, 5, 6, 8, 9], reach=('built', 'minimality-checked')) + [dict(j, thorough_only=True) for j in _hist_jobs('CHECK_C03', 2, 3, [1, 4, 7], reach=('built', 'minimality-checked'))])
+    jobs=_hist_jobs('CHECK_C03', 2, 3, [0, 2, 3, 5, 6, 8, 9, 12], reach=('built', 'minimality-checked')) + [dict(j, thorough_only=True) for j in _hist_jobs('CHECK_C03', 2, 3, [1, 4, 7], reach=('built', 'minimality-checked'))])
 CHECKS['C04'] = dict(
     title='a command starts only after everything it needs is up to date and in place',
     level_text='Symbolic histories and single invocations with symbolic -j (1..3), pool depths and completion order over the whole real pipeline; a monitor inside CommandRunner::StartCommand asserts for every file the command reads (declared, discovered through depfile/deps log, or dyndep) that has a producer: it exists and already has the content a from-scratch build gives it; the directories of outputs and depfile exist; the response file holds the evaluated rspfile_content. A validation target is reached both before and after its requester (witness).',
@@ -174,6 +174,8 @@ CHECKS['C06'] = dict(
     jobs=_mode_jobs('MODE_SCHED', [9, 2, 5], reach=('built',), bounds='one invocation from the empty tree, -j in {1,2,3}, every completion order') +
          _mode_jobs('MODE_SCHED', [9, 0], extra=['WITH_FAILURES'], suffix='_fail', reach=('built',), bounds='the same with any subset of commands failing, -k in {1,2}') +
          _mode_jobs('MODE_SCHED', [9, 2], extra=['WITH_JOBSERVER'], suffix='_tokens', reach=('tokens-success', 'tokens-failure'), bounds='jobserver pool of 0..2 explicit tokens plus the implicit one, any command start may fail') +
+         _mode_jobs('MODE_SCHED', [9, 0], extra=['WITH_JOBSERVER', 'WITH_FAILURES'], suffix='_tokens_fail', reach=('tokens-success', 'tokens-failure'), bounds='jobserver pool of 0..2 explicit tokens, any command may fail or fail to start, -k in {1,2}') +
+         _mode_jobs('MODE_SCHED', [12], extra=['FROM_BUILT'], suffix='_built', reach=('built',), bounds='from a fully built tree after symbolic edits/deletions') +
          _mode_jobs('MODE_SCHED', [9, 7], extra=['FROM_BUILT'], suffix='_built', reach=('built',), bounds='from a fully built tree after symbolic edits/deletions', thorough_only=True))
 CHECKS['C07'] = dict(
     title='interrupting or killing ninja never poisons the next build',
